@@ -127,6 +127,18 @@ def tdelta(ls: LastSpikes, pairs: np.ndarray, dt: float, d: np.ndarray):
     return td, valid, band
 
 
+def ages(ls: LastSpikes, pairs: np.ndarray):
+    """Steps since the most recent pre / post spike of every pair, (B,P,L) float64 (inf = silent)."""
+    pre_idx, post_idx = pairs[..., 0], pairs[..., 1]
+    padded = pre_idx < 0
+    n_pre = ls.pre[:, np.where(padded, 0, pre_idx)]
+    n_pre = np.where(padded[None], -1, n_pre)
+    n_post = ls.post[:, post_idx]
+    k_pre = np.where(n_pre >= 0, (ls.n - n_pre).astype(np.float64), np.inf)
+    k_post = np.where(n_post >= 0, (ls.n - n_post).astype(np.float64), np.inf)
+    return k_pre, k_post
+
+
 def tdelta_exact_zero(ls: LastSpikes, pairs: np.ndarray, dt: float, d: np.ndarray) -> np.ndarray:
     """Exact-rational evaluation of [t_delta == 0] on the actual float values (B,P,L)."""
     pre_idx, post_idx = pairs[..., 0], pairs[..., 1]
